@@ -10,7 +10,9 @@ ops
        `obs` = what env.reset() returned if the harness saw a reset, else []; if the model resets
        (`reset` or nothing carried yet) and `obs` has not `n` entries the op is rejected
   {"op":"rollout","V":[[tag,q]],"steps":[{"samples":[{"a":[q],"logp":q}],
-        "raw":[{"obs":tag,"r":q,"term":b,"trunc":b,"reset":tag}]}]}
+        "raw":[{"obs":tag,"r":q,"term":b,"trunc":b,"reset":tag,"stale_term":tag|null,"stale_tl":b}]}]}
+       ("stale_*" optional: what the sub-environment's reused info dict already carried; "new" takes an optional
+        "lazy_vec":b selecting `vecOutLazy` — keys written on episode end only — instead of `vecOut`)
        → {"rows":[[{"obs":tag,"action":[q],"reward":q,"start":b,"value":q,"logp":q}]]   (T × n)
           "env_actions":[[[q]]] (T × n × dim), "vec":[[{"obs":tag,"done":b,"tl":b,"term_obs":tag|null}]],
           "last_values":[q],"last_dones":[b],"adv":[[q]] (T × n),"ret":[[q]] (T × n),"last_obs":[tag],"starts":[b]}
@@ -26,6 +28,7 @@ structure Cfg where
   n : Nat
   γ : Rat
   lam : Rat
+  lazyVec : Bool
   kind : ActKind
   lo : List Rat
   hi : List Rat
@@ -40,8 +43,16 @@ def kindStr : ActKind → String
   | .ident => "ident"
 
 def parseRaw (j : Json) : Except String (Raw Nat Rat) := do
+  let staleT : Option Nat ← match j.getObjVal? "stale_term" with
+    | .ok Json.null => pure none
+    | .ok v => do pure (some (← asNat v))
+    | .error _ => pure none
+  let staleF : Bool ← match j.getObjVal? "stale_tl" with
+    | .ok v => asBool v
+    | .error _ => pure false
   return { obs := ← getNat j "obs", reward := ← getRat j "r", terminated := ← getBool j "term",
-           truncated := ← getBool j "trunc", resetObs := ← getNat j "reset" }
+           truncated := ← getBool j "trunc", resetObs := ← getNat j "reset",
+           staleTerminal := staleT, staleTimeLimit := staleF }
 
 def parseSample (j : Json) : Except String (Sample (List Rat) Rat) := do
   return { action := ← getList asRat j "a", logp := ← getRat j "logp" }
@@ -70,6 +81,9 @@ def stepC06 (st : DSt) (j : Json) : Except String (DSt × Json) := do
     let n ← getNat j "n"
     let γ ← getRat j "gamma"
     let lam ← getRat j "lam"
+    let lazyVec ← match j.getObjVal? "lazy_vec" with
+      | .ok v => asBool v
+      | .error _ => pure false
     let isBox ← getBool j "is_box"
     let squash ← getBool j "squash"
     let lo ← getList asRat j "low"
@@ -77,7 +91,7 @@ def stepC06 (st : DSt) (j : Json) : Except String (DSt × Json) := do
     if n = 0 then throw "n_envs=0"
     let k := actKind isBox squash
     if isBox && lo.length != hi.length then throw "bounds of different lengths"
-    return ({ cfg := some { n := n, γ := γ, lam := lam, kind := k, lo := lo, hi := hi }, carry := none },
+    return ({ cfg := some { n := n, γ := γ, lam := lam, lazyVec := lazyVec, kind := k, lo := lo, hi := hi }, carry := none },
             objJ [("ok", boolJ true), ("act", strJ (kindStr k))])
   | "learn" =>
     let some cfg := st.cfg | throw "no-config"
@@ -101,7 +115,7 @@ def stepC06 (st : DSt) (j : Json) : Except String (DSt × Json) := do
       if cfg.kind != .ident then
         for s in samples do
           if s.action.length != cfg.lo.length then throw "action dimension differs from the bounds"
-      let outs := raws.map vecOut
+      let outs := raws.map (if cfg.lazyVec then vecOutLazy else vecOut)
       let dS : Sample (List Rat) Rat := { action := [], logp := 0 }
       let dO : VOut Nat Rat := { obs := 0, reward := 0, done := false, terminalObs := none, timeLimit := false }
       pure ({ sample := fun e => samples.getD e dS, out := fun e => outs.getD e dO } :
@@ -111,7 +125,9 @@ def stepC06 (st : DSt) (j : Json) : Except String (DSt × Json) := do
     let needed : List Nat :=
       es.map c.lastObs ++
       steps.flatMap fun x => es.flatMap fun e =>
-        (x.out e).obs :: (match (x.out e).terminalObs with | some t => [t] | none => [])
+        (x.out e).obs :: (match (x.out e).done && (x.out e).timeLimit, (x.out e).terminalObs with
+          | true, some t => [t]   -- exactly the terminal observations `rewardOf` asks the value of
+          | _, _ => [])
     for o in needed do
       if (table.lookup o).isNone then throw s!"V-missing {o}"
     let V : Nat → Rat := fun o => (table.lookup o).getD 0
